@@ -217,3 +217,71 @@ impl ValT for VC {
     }
 }
 
+
+
+/// Three-byte key without identity or drop glue (odd element sizes exercise layout padding).
+#[derive(Copy)]
+pub struct K3 {
+    pub k: [u8; 3],
+}
+impl Clone for K3 {
+    fn clone(&self) -> Self {
+        let _ = tape::clone_key();
+        K3 { k: self.k }
+    }
+}
+impl Hash for K3 {
+    fn hash<H: Hasher>(&self, state: &mut H) {
+        state.write_u64(tape::hash_of(KeyT::k(self)));
+    }
+}
+impl PartialEq for K3 {
+    fn eq(&self, other: &Self) -> bool {
+        tape::eq_of(KeyT::k(self), KeyT::k(other))
+    }
+}
+impl Eq for K3 {}
+impl KeyT for K3 {
+    const DROP: bool = false;
+    const IDS: bool = false;
+    fn new(k: u64, _id: u64) -> Self {
+        K3 { k: [k as u8, (k >> 8) as u8, (k >> 16) as u8] }
+    }
+    fn k(&self) -> u64 {
+        self.k[0] as u64 | (self.k[1] as u64) << 8 | (self.k[2] as u64) << 16
+    }
+    fn id(&self) -> u64 {
+        0
+    }
+}
+
+/// Two-byte value without identity or drop glue.
+#[derive(Copy)]
+pub struct V2 {
+    pub v: [u8; 2],
+}
+impl Clone for V2 {
+    fn clone(&self) -> Self {
+        let _ = tape::clone_val();
+        V2 { v: self.v }
+    }
+}
+impl PartialEq for V2 {
+    fn eq(&self, o: &Self) -> bool {
+        self.v == o.v
+    }
+}
+impl ValT for V2 {
+    fn new(_id: u64, v: u64) -> Self {
+        V2 { v: [v as u8, (v >> 8) as u8] }
+    }
+    fn id(&self) -> u64 {
+        0
+    }
+    fn v(&self) -> u64 {
+        self.v[0] as u64 | (self.v[1] as u64) << 8
+    }
+    fn set_v(&mut self, v: u64) {
+        self.v = [v as u8, (v >> 8) as u8]
+    }
+}
